@@ -210,6 +210,13 @@ func genSys(r *hlib.Rand, tier string) input {
 		}
 		in.SlowMicros = r.Range(30, 250)
 	}
+	// half of the runs have a backend that is slow to read the map it is handed (inside
+	// SendMetricsAsync, before it calls back), and more flushes: whatever the aggregator does to the
+	// handed-over data in the meantime shows
+	if r.Bool() {
+		in.CopyMicros = r.Range(40, 300)
+		in.MaxFlushes = r.Range(4, 10)
+	}
 	in.Sched = r.U64()
 	u := newLineUniverse(r)
 	nlines := r.Range(40, 220)
@@ -323,6 +330,8 @@ type capBackend struct {
 	mu      sync.Mutex
 	flushNo *int64
 	ids     *sync.Map
+	shards  int
+	delay   time.Duration // scripted: a backend that takes its time to read the map (synchronously, as the interface demands)
 	caps    []captured
 }
 
@@ -331,13 +340,28 @@ func (b *capBackend) SendEvent(context.Context, *gostatsd.Event) error {
 	return nil
 }
 func (b *capBackend) SendMetricsAsync(ctx context.Context, mm *gostatsd.MetricMap, cb gostatsd.SendCallback) {
-	cp := deepCopy(mm) // synchronously: the aggregator resets this very map right after
+	// Backend contract ("must not read/write MetricMap asynchronously"): everything is read before
+	// this call returns - the aggregator resets the map right after - but a backend may well take a
+	// while over it.
+	if b.delay > 0 {
+		time.Sleep(b.delay)
+	}
+	cp := deepCopy(mm)
 	w := -1
 	if v, ok := b.ids.Load(mm); ok {
 		w = v.(int)
+	} else {
+		// not the aggregator's own map (some copy of it): the worker is read off the first series
+		// (Coq checks the routing of every series with its own bucket function)
+		w = -2
+		cp.Counters.Each(func(n, k string, _ gostatsd.Counter) { w = gostatsd.Bucket(n, k, b.shards) })
+		cp.Timers.Each(func(n, k string, _ gostatsd.Timer) { w = gostatsd.Bucket(n, k, b.shards) })
+		cp.Gauges.Each(func(n, k string, _ gostatsd.Gauge) { w = gostatsd.Bucket(n, k, b.shards) })
+		cp.Sets.Each(func(n, k string, _ gostatsd.Set) { w = gostatsd.Bucket(n, k, b.shards) })
 	}
+	f := int(atomic.LoadInt64(b.flushNo))
 	b.mu.Lock()
-	b.caps = append(b.caps, captured{int(atomic.LoadInt64(b.flushNo)), w, cp})
+	b.caps = append(b.caps, captured{f, w, cp}) // w == -2: an empty map from nowhere, attributed after the run
 	b.mu.Unlock()
 	cb(nil)
 }
@@ -548,7 +572,7 @@ func runSys(in input, rep uint64) hlib.Case {
 	defer cancel()
 	var flushNo int64
 	var ids sync.Map
-	backend := &capBackend{flushNo: &flushNo, ids: &ids}
+	backend := &capBackend{flushNo: &flushNo, ids: &ids, shards: in.Shards, delay: time.Duration(in.CopyMicros) * time.Microsecond}
 	backends := []gostatsd.Backend{backend}
 	nAgg := 0
 	var aggs []*aggWrap
@@ -659,6 +683,24 @@ func runSys(in input, rep uint64) hlib.Case {
 	backend.mu.Lock()
 	caps := append([]captured(nil), backend.caps...)
 	backend.mu.Unlock()
+	// empty maps that are not an aggregator's own map carry nothing to tell the worker by: within a
+	// flush they go to the workers that flush has not heard from
+	used := map[[2]int]bool{}
+	for _, cp := range caps {
+		if cp.worker >= 0 {
+			used[[2]int{cp.flush, cp.worker}] = true
+		}
+	}
+	for i := range caps {
+		if caps[i].worker == -2 {
+			w := 0
+			for used[[2]int{caps[i].flush, w}] {
+				w++
+			}
+			caps[i].worker = w
+			used[[2]int{caps[i].flush, w}] = true
+		}
+	}
 
 	// ---- monitors
 	got := map[string]*tot{}
@@ -807,6 +849,9 @@ func runSys(in input, rep uint64) hlib.Case {
 	}
 	if in.SlowMicros > 0 {
 		c.Class += "/slow"
+	}
+	if in.CopyMicros > 0 {
+		c.Class += "/slowbackend"
 	}
 	c.Obs = map[string]interface{}{"lines": len(lines), "accepted": accepted, "series": len(sent), "flushes": atomic.LoadInt64(&flushNo), "histogram_timer_lines": histLines,
 		"flushes_with_data": len(flushesWithData), "maps_captured": len(caps)}
